@@ -23,6 +23,7 @@ from props.c27 import scratch, quiet, tokenise, model_file, wire_file, real_reqs
 
 TITLE = "OPB export for the ILP sampler"
 LEVEL = "proof"
+DOMAINS = ['Text']
 
 REL = {"EQ": lambda c, k: c == k, "LT": lambda c, k: c < k, "GT": lambda c, k: c > k}
 
@@ -118,6 +119,13 @@ def sat_encoding_accepts(m, cls, n, reqs):
 
 
 def prop_opb(m, cls, n, reqs, only=None):
+    try:
+        return _prop_opb(m, cls, n, reqs, only)
+    except Exception as e:  # noqa
+        return ("opb:raises", {"problem": "the real code / the OPB reader raised %s: %s" % (type(e).__name__, str(e)[:120])})
+
+
+def _prop_opb(m, cls, n, reqs, only=None):
     """Returns None or (sig, detail) for the first assignment on which the real
     OPB text disagrees with the specification / the SAT encoding."""
     text = real_opb_text(m, cls, n, reqs)
@@ -156,6 +164,13 @@ def prop_opb(m, cls, n, reqs, only=None):
 
 
 def prop_block(m, cls, n, reqs, prevs):
+    try:
+        return _prop_block(m, cls, n, reqs, prevs)
+    except Exception as e:  # noqa
+        return {"problem": "the real code / the OPB reader raised %s: %s" % (type(e).__name__, str(e)[:120])}
+
+
+def _prop_block(m, cls, n, reqs, prevs):
     """After update_file for each previous solution the old constraints are
     unchanged and each new one rejects exactly that solution."""
     with scratch() as d, quiet():
@@ -206,7 +221,7 @@ def run(ctx, res):
 
     # ---- O1/O2/O3 text: as_opb_string, combine_and_save_opb, update_file ------------------------
     cases, lines = [], []
-    for _ in range(200 if q else 2000):
+    for _ in range(800 if q else 4000):
         style = rng.random()
         if style < 0.8:
             cls, n, reqs = rand_case(rng, 9)
@@ -243,7 +258,7 @@ def run(ctx, res):
 
     # ---- O4 the model's PB evaluator agrees with the harness's on the real text -----------------
     lines, wants = [], []
-    for cls, n, reqs, prevs in cases[: (80 if q else 600)]:
+    for cls, n, reqs, prevs in cases[: (320 if q else 1200)]:
         if any(abs(l) > 50 for c in cls for l in c):
             continue
         text = real_opb_text(m, cls, n, reqs)
@@ -282,9 +297,9 @@ def run(ctx, res):
         for kd in ("EQ", "LT", "GT"):
             for k in range(0, n + 2):
                 search_case([], n, [(kd, k, list(range(1, n + 1)))])
-    for _ in range(150 if q else 2000):
+    for _ in range(600 if q else 4000):
         search_case(*rand_case(rng))
-    for _ in range(60 if q else 600):
+    for _ in range(240 if q else 1200):
         cls, n, reqs = rand_case(rng)
         prevs = [[(i + 1) * rng.choice([-1, 1]) for i in range(rng.randint(1, 6))] for _ in range(rng.randint(1, 3))]
         bad = prop_block(m, cls, n, reqs, prevs)
@@ -302,15 +317,13 @@ def run(ctx, res):
     if found:
         res.extra["failing_sigs"] = sorted(found)
     broken = {k: v for k, v in mism.items() if v}
-    if broken and not found:
+    if broken:
         k = sorted(broken)[0]
         res.violations.append(Violation(
             "corr:" + k, "model Text/Opb.v and the real OPB export disagree on layer(s) %s, e.g. %r" % (
                 ", ".join("%s (%d)" % (a, len(b)) for a, b in sorted(broken.items())), broken[k][0]),
             {"layers": sorted(broken), "theorems": ["C28_opb_clause_equiv", "C28_opb_request_equiv", "C28_opb_block_excludes_exactly"],
              "first_mismatch": repr(broken[k][0])}, failing_input=False))
-    elif broken:
-        res.notes.append("correspondence also broken on layers " + ", ".join(sorted(broken)))
 
 
 def replay(ctx, data):
